@@ -89,6 +89,13 @@ check('C18', 'exploration', 'reference-model monitor: union-find partition of no
       'seg_sizes recounted, num_surround / demand_increase / length_increase recomputed per valve.',
       'A valve row names a link and one of its end nodes; counting convention for num_surround as documented (valves adjacent to either segment).', 'DESIGN.md#C18')
 
+check('C20', 'exploration', 'reference-formula monitor: every wntr.metrics value recomputed from the documented formula with plain loops; expected_demand additionally compared with the demand a DD WNTRSimulator run delivers',
+      'Random networks with hostile pattern clocks (periods not dividing 24 h, pattern_start, categories, multiplier) and random result tables: '
+      'expected_demand cell by cell (default/explicit windows, category) and against the simulator, average_expected_demand against the exact '
+      'common-period mean, population, WSA (3 documented forms), Todini, MRI (both forms), tank_capacity (cylinder and volume curve), pump '
+      'power/energy/cost, annual_network_cost and annual_ghg_emissions against the documented tables.',
+      'Formulas transcribed from the docstrings; global_efficiency is a percentage; table look-ups avoid exact ties.', 'DESIGN.md#C20')
+
 NOT_YET = 'monitor not built yet in this commit (planned in DESIGN.md section 4)'
 ALL = ['C%02d' % i for i in range(1, 21)]
 
